@@ -54,6 +54,10 @@ pub fn program(cls: &str, errfile: u64) -> (String, String) {
             }
         }
         "clean" | "err_io" => (good_a, good_b),
+        "big" => {
+            let defs: String = (0..4000).map(|k| format!("struct Big{k} {{ a: int32, b: Sequence<string> }}\n")).collect();
+            (format!("module A\nstruct SA {{ x: int32 }}\n{defs}"), good_b)
+        }
         _ => {
             if errfile == 1 {
                 (bad("A", "SA"), good_b)
